@@ -83,7 +83,7 @@ var (
 )
 
 func genQty(t *rapid.T, label string, exactOnly bool) string {
-	if exactOnly || rapid.IntRange(0, 3).Draw(t, label+"_kind") > 0 {
+	if exactOnly || rapid.IntRange(0, 3).Draw(t, label+"_kind") < 3 {
 		return rapid.SampledFrom(exactQty).Draw(t, label)
 	}
 	return rapid.SampledFrom(decimalQty).Draw(t, label)
@@ -122,18 +122,18 @@ func genBook(t *rapid.T, o BookOpts) []Block {
 			label := fmt.Sprintf("r%d_i%d", i, j)
 			var name string
 			switch c := rapid.IntRange(0, 9).Draw(t, label+"_ref"); {
-			case c < 4 && i+1 < n:
+			case c >= 4 && c < 8 && i+1 < n:
 				name = names[rapid.IntRange(i+1, n-1).Draw(t, label+"_fwd")]
-			case c == 4 && o.Cycles && n > 0:
+			case c == 8 && o.Cycles && n > 0:
 				name = names[rapid.IntRange(0, n-1).Draw(t, label+"_any")]
-			case c == 5:
+			case c == 9:
 				name = rapid.SampledFrom(foreignPool).Draw(t, label+"_foreign")
 			default:
 				name = rapid.SampledFrom(elementPool).Draw(t, label+"_el")
 			}
 			book[i].Items = append(book[i].Items, Item{name, genQty(t, label+"_q", o.ExactOnly)})
 		}
-		if rapid.IntRange(0, 5).Draw(t, fmt.Sprintf("r%d_note", i)) == 0 {
+		if rapid.IntRange(0, 5).Draw(t, fmt.Sprintf("r%d_note", i)) == 5 {
 			book[i].Notes = []string{"barcode: 000" + fmt.Sprint(i)}
 		}
 	}
@@ -208,7 +208,7 @@ func genLog(t *rapid.T, book []Block, o LogOpts) []Block {
 			}
 			days[i].Items = append(days[i].Items, Item{name, genQty(t, label+"_q", o.ExactOnly)})
 		}
-		if rapid.IntRange(0, 5).Draw(t, fmt.Sprintf("d%d_note", i)) == 0 {
+		if rapid.IntRange(0, 5).Draw(t, fmt.Sprintf("d%d_note", i)) == 5 {
 			days[i].Notes = []string{"weight: 7" + fmt.Sprint(i), "felt fine"}
 		}
 	}
